@@ -1,5 +1,6 @@
 import SeqVerif.Base.Proto
 import SeqVerif.Model.PatternGlob
+import SeqVerif.Model.PatternSpec
 /-!
 Driver for C13.  Byte strings: hex, `_` = empty.  Lists: `,`-separated, `-` = empty list.
 Terms: `*` or `T<hex>` (`T_` = empty text).  Token: `L/<terms>` or `R/<from>/<to>/<incFrom><incTo>` with an end
@@ -11,6 +12,7 @@ Terms: `*` or `T<hex>` (`T_` = empty text).  Token: `L/<terms>` or `R/<from>/<to
   seq <s> <frag;frag;...>                    -> ok <n found> <n fragments> | panic
   check <terms> <token> <narrowed 0|1>       -> ok <0|1> | panic      (literalSearch / wildcardSearch .check)
   glob <terms> <token>                       -> ok <0|1>              (declarative matcher globB)
+  specleaf <token> <value>                   -> ok <0|1>              (SV.Spec.Leaf.valMatch of the shared Spec)
   wf <terms>                                 -> ok <0|1>              (hypothesis WF of c13_wildcard_iff_glob)
   rcheck <R/...> <token> num=...             -> ok <n|t> <0|1>        (n = numeric search chosen, t = text)
   search <token> <ordered> <base> <dict> num=...   -> ok <tids> | panic
@@ -99,6 +101,10 @@ def step (line : String) : String :=
   | ["glob", ts, v] =>
     match terms? ts, bytes? v with
     | some ts, some v => "ok " ++ fmtBool (globB ts v)
+    | _, _ => "bad-op"
+  | ["specleaf", tk, v] =>
+    match token? tk, bytes? v with
+    | some tk, some v => "ok " ++ fmtBool ((specLeaf [] tk).valMatch v)
     | _, _ => "bad-op"
   | ["wf", ts] =>
     match terms? ts with
